@@ -19,12 +19,12 @@ for p in $prop $extra; do
 done
 git -C $wt checkout -q -- src; rm -rf /tmp/seed_ev /tmp/seed_rp
 echo "$prop/$x: demo clean rc=$clean_rc, with change rc=$mut_rc; suite: $suite; checks:$results"
-d=seeded/${prop}_$x; mkdir -p $d
+d=seeded/${prop}_${SEED_TAG:-}$x; mkdir -p $d
 cp $out/$x.patch $d/patch.diff; cp $out/${x}_demo.py $d/demo.py; cp $out/${x}_notes.txt $d/notes.txt 2>/dev/null
 python3 - "$prop" "$x" "$clean_rc" "$mut_rc" "$suite" "$results" "$demo_tail" <<'PY'
 import json,sys,os
 prop,x,c,m,suite,results,tail=sys.argv[1:8]
-d=f"/verif/seeded/{prop}_{x}"
+d=f"/verif/seeded/{prop}_"+os.environ.get("SEED_TAG","")+x
 notes=open(d+"/notes.txt").read() if os.path.exists(d+"/notes.txt") else ""
 json.dump({"property":prop,"origin":"independent sub-agent given only the property text and a scratch worktree",
  "needs_to_manifest":notes.strip(),
